@@ -92,7 +92,7 @@ def execute_lemma(n):
         E.prove('execute:outstanding-requests-carry-distinct-ids', L.Not(clash), finding='C16-F1', region=clash)
         E.prove('execute:nothing-fires', len(w.fired) == 0)
         tx = tm.transactions
-        E.prove('execute:returned-deferred-is-filed-under-its-tid', E.I.getitem(tx, new) is d if E.mode == 'symbolic' else tx[new] is d)
+        E.prove('execute:returned-deferred-is-filed-under-its-tid', E.I.getitem(tx, new) is d if E.mode == 'symbolic' else tx.get(new) is d)
         for k in range(n):
             still = E.I.getitem(tx, tids[k]) if E.mode == 'symbolic' else tx.get(tids[k])
             E.prove('execute:other-pending-requests-untouched[%d]' % k, L.Implies(tids[k] != new, still is ds[k]) if (still is ds[k]) or E.mode == 'symbolic' else L.Implies(tids[k] != new, False),
